@@ -46,14 +46,14 @@ impl Prop for C03 {
         vec!["unforgeability against arbitrary algorithms is a cryptographic assumption; decided here: the refusals, the honest-algorithm attack with lied thresholds, exact Shamir secrecy on GF(q)".into()]
     }
     fn bound(&self, tier: Tier) -> String {
-        format!("n<={}, every subset below t; tiny q in {{5,7,11}} t<={}", tier.pick(5, 7), tier.pick(3, 4))
+        format!("n<={}, every subset below t; tiny q in {{5,7,11}} t<={}", tier.pick(6, 8), tier.pick(3, 4))
     }
     fn required_counters(&self) -> Vec<&'static str> {
         vec!["below_threshold_sets", "lying_signs_ok", "positive_controls", "secrecy_classes"]
     }
     fn cases(&self, tier: Tier, seed: u64) -> Vec<Value> {
         let mut out = vec![];
-        let nmax = tier.pick(5u16, 7u16);
+        let nmax = tier.pick(6u16, 8u16);
         for (n, t) in super::c01::shapes(nmax) {
             for suite in REAL_SUITES {
                 if suite == "ed448" && n > tier.pick(4, 5) {
